@@ -181,6 +181,8 @@ var uuidMu sync.Mutex
 func NewReplica() *Replica {
 	uuidMu.Lock()
 	defer uuidMu.Unlock()
+	saved := vrt.UUIDCounter()
+	defer vrt.SetInactiveUUIDCounter(saved)
 	vrt.SetInactiveUUIDCounter(7) // always the same dataset/partition ids: the shared DB is written once
 	p, err := storage.VerifStandalonePartition(pb.Dataset{Dimension: 2, Space: pb.Space_Euclidean, ReplicationFactor: 1}, world.SharedDB())
 	if err != nil {
@@ -193,9 +195,25 @@ func NewReplica() *Replica {
 func NotifID(i int) uuid.UUID {
 	uuidMu.Lock()
 	defer uuidMu.Unlock()
+	saved := vrt.UUIDCounter()
+	defer vrt.SetInactiveUUIDCounter(saved)
 	vrt.SetInactiveUUIDCounter(uint64(1000 + i))
 	return uuid.NewV4()
 }
+
+// ExpectAt registers the notification channel of log position i on the replica (so that an
+// entry applied through raft reports its outcome there).
+func (r *Replica) ExpectAt(i int) (<-chan interface{}, uuid.UUID) {
+	uuidMu.Lock()
+	defer uuidMu.Unlock()
+	saved := vrt.UUIDCounter()
+	defer vrt.SetInactiveUUIDCounter(saved)
+	vrt.SetInactiveUUIDCounter(uint64(1000 + i))
+	return r.P.Expect()
+}
+
+// Canon converts a raw notification value into an Outcome.
+func Canon(res interface{}, batch bool) Outcome { return canonOutcome(res, batch) }
 
 // Apply feeds the entry of log position i to the replica and returns the outcome it reports.
 // applyErr is the error process() itself returned (a non-nil value makes the raft loop Fatal).
@@ -206,8 +224,10 @@ func (r *Replica) Apply(i int, data []byte, batch bool) (out Outcome, applyErr e
 		}
 	}()
 	uuidMu.Lock()
+	saved := vrt.UUIDCounter()
 	vrt.SetInactiveUUIDCounter(uint64(1000 + i))
 	ch, nid := r.P.Expect()
+	vrt.SetInactiveUUIDCounter(saved)
 	uuidMu.Unlock()
 	defer r.P.Unexpect(nid)
 	if nid != NotifID(i) {
